@@ -32,6 +32,9 @@ type c10Step struct {
 type c10Scenario struct {
 	ID    int       `json:"id"`
 	Steps []c10Step `json:"steps"`
+	// Concurrent: all datagrams are handed to the server at once (the server handles every datagram in a
+	// goroutine of its own); only the number of response datagrams per step is observed
+	Concurrent bool `json:"concurrent,omitempty"`
 }
 
 type c10Result struct {
@@ -198,6 +201,31 @@ func c10RunScenario(sc c10Scenario) c10Result {
 		return res
 	}
 	defer srv.Stop()
+	if sc.Concurrent {
+		res.Obs = make([]c10Step, len(sc.Steps))
+		var wg sync.WaitGroup
+		start := make(chan struct{})
+		for i, st := range sc.Steps {
+			i, st := i, st
+			payload, err := c10Bytes(st.Svc, st.Kind, atomic.AddUint32(&c10Counter, 1))
+			if err != nil {
+				res.Error = err.Error()
+				return res
+			}
+			wg.Add(1)
+			go func() {
+				defer wg.Done()
+				<-start
+				replies, _ := sendUDPWait(srv.mem, udpAddr("192.0.2.1", c10Ports[st.Svc]), udpAddr(st.IP, st.Port), payload, 10*time.Second)
+				o := st
+				o.Rep = len(replies)
+				res.Obs[i] = o
+			}()
+		}
+		close(start)
+		wg.Wait()
+		return res
+	}
 	for _, st := range sc.Steps {
 		payload, err := c10Bytes(st.Svc, st.Kind, atomic.AddUint32(&c10Counter, 1))
 		if err != nil {
